@@ -1386,7 +1386,7 @@ class Folder:
             return t
         t = 0
         for x in a[0]:
-            t = _binop(ast.Add(), t, x)
+            t = _binop(ast.Add(), t, int(x) if isinstance(x, bool) else x)
         return t
 
     def c_np_sqrt(self, a, kw):
